@@ -35,40 +35,54 @@ RcaStep(ev) ==
                 RCADiscards(ev.X, ev.chunks, ev.L, ev.Vt, k)),
          {"C09.rca_whitens_within_chunk_covariance", "C09.rca_reduction_keeps_best_total_to_within_directions"})
 
-(* rows of L against the verified spectrum (Vt rows = eigenvectors, lam decreasing, V^T S_w V = I) *)
-LfdaStep(ev) ==
+(* rows of L against a verified spectrum (w.Vt rows = eigenvectors, w.lam decreasing, V^T S_w V = I).   *)
+(* w is a record of witnesses for ONE variant of the local scale: [a, s, t, A, Vt, lam, coef].          *)
+(* Result: "ok" | "fails" | "witness" (a witness was rejected) | "nogap"                                 *)
+LfdaVerdict(ev, w, documented) ==
   LET X == ev.X  y == ev.y  n == Len(X)  d == Len(X[1])  k == Len(ev.L)
-      PSw == LfdaWithinP(X, y, ev.A)
-      NPSb == LfdaBetweenNP(X, y, ev.A)
+      PSw == LfdaWithinP(X, y, w.A)
+      NPSb == LfdaBetweenNP(X, y, w.A)
       P == FromInt(PClass(y))  nn == FromInt(n)
       sw == MaxAbsM(PSw)  sb == MaxAbsM(NPSb)
-      eigOK == /\ \A j \in 1..d : ApproxV(DM!MatVec(NPSb, ev.Vt[j]),
-                                          DM!VScale(Mul(ev.lam[j], nn), DM!MatVec(PSw, ev.Vt[j])), 1, 1,
-                                          Mul(Add(sb, Mul(Mul(Abs(ev.lam[j]), nn), sw)), MaxAbsV(ev.Vt[j])))
-               /\ \A j \in 1..(d - 1) : Leq(ev.lam[j + 1], ev.lam[j])
-               /\ ApproxM(DM!MatMul(DM!MatMul(ev.Vt, PSw), DM!Transpose(ev.Vt)),
+      eigOK == /\ \A j \in 1..d : ApproxV(DM!MatVec(NPSb, w.Vt[j]),
+                                          DM!VScale(Mul(w.lam[j], nn), DM!MatVec(PSw, w.Vt[j])), 1, 1,
+                                          Mul(Add(sb, Mul(Mul(Abs(w.lam[j]), nn), sw)), MaxAbsV(w.Vt[j])))
+               /\ \A j \in 1..(d - 1) : Leq(w.lam[j + 1], w.lam[j])
+               /\ ApproxM(DM!MatMul(DM!MatMul(w.Vt, PSw), DM!Transpose(w.Vt)),
                           [i \in 1..d |-> [j \in 1..d |-> IF i = j THEN P ELSE Zero]], 1, 1, P)
-      gapOK == k = d \/ Leq(Shift(Abs(ev.lam[1]), -1), Sub(ev.lam[k], ev.lam[k + 1]))
+      gapOK == k = d \/ Leq(Shift(Abs(w.lam[1]), -1), Sub(w.lam[k], w.lam[k + 1]))
       rowOK(r) ==
-        CASE ev.embedding = "plain"    -> ApproxV(ev.L[r], DM!VScale(ev.coef[r], ev.Vt[r]), 1, 1, MaxAbsV(ev.L[r]))
-                                          /\ Approx(Sq(ev.coef[r]), One, 1, 1, One)
-          [] ev.embedding = "weighted" -> ApproxV(ev.L[r], DM!VScale(ev.coef[r], ev.Vt[r]), 1, 1, MaxAbsV(ev.L[r]))
-                                          /\ Approx(Sq(ev.coef[r]), ev.lam[r], 1, 1, Abs(ev.lam[r]))
+        CASE ev.embedding = "plain"    -> ApproxV(ev.L[r], DM!VScale(w.coef[r], w.Vt[r]), 1, 1, MaxAbsV(ev.L[r]))
+                                          /\ Approx(Sq(w.coef[r]), One, 1, 1, One)
+          [] ev.embedding = "weighted" -> ApproxV(ev.L[r], DM!VScale(w.coef[r], w.Vt[r]), 1, 1, MaxAbsV(ev.L[r]))
+                                          /\ Approx(Sq(w.coef[r]), w.lam[r], 1, 1, Abs(w.lam[r]))
           [] OTHER -> \* orthonormalized: row r lies in span(v_1..v_r) = S_w-orthogonal complement of v_j, j > r
-                      \A j \in (r + 1)..d :
-                         Leq(Abs(DM!Dot(ev.L[r], DM!MatVec(PSw, ev.Vt[j]))),
-                             Shift(Mul(Mul(MaxAbsV(ev.L[r]), sw), MaxAbsV(ev.Vt[j])), -1))
+                      /\ \A j \in (r + 1)..d :
+                            Leq(Abs(DM!Dot(ev.L[r], DM!MatVec(PSw, w.Vt[j]))),
+                                Shift(Mul(Mul(MaxAbsV(ev.L[r]), sw), MaxAbsV(w.Vt[j])), -1))
+                      /\ \A q \in 1..k : Approx(DM!Dot(ev.L[r], ev.L[q]), IF q = r THEN One ELSE Zero, 1, 1, One)
   IN
+  IF ~AffinityWitnessOK(X, y, ev.k, w.a, w.s, w.t, w.A, documented) THEN "witness"
+  ELSE IF ~eigOK THEN "witness"
+  ELSE IF ~gapOK THEN "nogap"
+  ELSE IF \A r \in 1..k : rowOK(r) THEN "ok" ELSE "fails"
+
+LfdaStep(ev) ==
   IF ev.exc # "" \/ ~AllFinM(ev.L) THEN R({"C09.lfda_fit_returns_finite_model"}, {})
-  ELSE IF ~AffinityWitnessOK(X, y, ev.k, ev.a, ev.s, ev.t, ev.A) THEN R({}, {"X09.lfda_affinity_witness_rejected"})
-  ELSE IF ~eigOK THEN R({}, {"X09.lfda_eigen_witness_rejected"})
-  ELSE IF ~gapOK THEN R({}, {"X09.lfda_no_eigen_gap"})
-  ELSE R(G("C09.lfda_components_are_leading_generalised_eigenvectors", \A r \in 1..k : rowOK(r))
-         \cup (IF ev.embedding = "orthonormalized"
-               THEN G("C09.lfda_orthonormalized_rows", ApproxM(DM!MatMul(ev.L, DM!Transpose(ev.L)),
-                        [i \in 1..k |-> [j \in 1..k |-> IF i = j THEN One ELSE Zero]], 1, 1, One))
-               ELSE {}),
-         {"C09.lfda_components_are_leading_generalised_eigenvectors"})
+  ELSE
+  LET doc == LfdaVerdict(ev, ev.doc, TRUE) IN
+  IF doc = "ok" THEN R({}, {"C09.lfda_components_are_leading_generalised_eigenvectors",
+                            "C09.lfda_local_scale_is_kth_nearest_same_class_neighbour"})
+  ELSE IF doc = "witness" THEN R({}, {"X09.lfda_witness_rejected"})
+  ELSE IF doc = "nogap" THEN R({}, {"X09.lfda_no_eigen_gap"})
+  ELSE \* not the documented formula: is it the documented formula up to the NAMED deviation of the local scale?
+       LET dev == LfdaVerdict(ev, ev.dev, FALSE) IN
+       IF dev = "ok" THEN R({"C09.lfda_local_scale_is_kth_nearest_same_class_neighbour"},
+                            {"C09.lfda_components_are_leading_generalised_eigenvectors",
+                             "C09.lfda_local_scale_is_kth_nearest_same_class_neighbour"})
+       ELSE IF dev = "witness" THEN R({}, {"X09.lfda_deviation_witness_rejected"})
+       ELSE R({"C09.lfda_components_are_leading_generalised_eigenvectors"},
+              {"C09.lfda_components_are_leading_generalised_eigenvectors"})
 
 Step(ev) == CASE ev.ev = "CovarianceFit" -> CovStep(ev)
               [] ev.ev = "RcaFit" -> RcaStep(ev)
